@@ -646,6 +646,11 @@ func corpus(c *hx.Ctx, or *hx.Oracle) {
 		{Trie: trieCase{Hash: "ped", Height: 251, Ops: []string{"0:a", "1:b", "9:c"}}, First: "0", Keys: []string{"1", "9"}, Values: []string{"b", "c"}, ProofKeys: []string{"0", "9"}, Tamper: "first-element-omitted", Shape: "corpus"},
 		{Trie: t159, First: "0", Keys: []string{"1", "5", "9"}, Values: []string{"ff", "b", "c"}, Tamper: "value-changed", Shape: "corpus"},
 		{Trie: trieCase{Hash: "ped", Height: 251, Ops: []string{"1:a", k250 + ":b", k250p1 + ":c"}}, First: "2", Tamper: "empty-claim-but-entries-follow", Shape: "corpus"},
+		// an empty claim whose `first` leaves the trie inside an INTERNAL edge (an edge above a binary node, not a leaf
+		// edge) that sorts above it, every binary node above left through its right child or none above at all: only
+		// hasRightElement's comparison inside the edge decides (round-4 seed trie2-hasright-edge-padding)
+		{Trie: trieCase{Hash: "ped", Height: 251, Ops: []string{"10:a", "11:b"}}, First: "0", Tamper: "empty-claim-but-entries-follow", Shape: "corpus"},
+		{Trie: trieCase{Hash: "ped", Height: 251, Ops: []string{"1:a", "70:b", "71:c"}}, First: "40", Tamper: "empty-claim-but-entries-follow", Shape: "corpus"},
 		// both: the single-element branch recomputes no hash (value altered in the claim and in the proof node, node still under its honest hash)
 		{Trie: t159, First: "5", Keys: []string{"5"}, Values: []string{"ff"}, Tamper: "single-element-value-forged-also-in-proof-node", Muts: []string{"child:3:c:ff"}, Shape: "corpus"},
 		// trie2: the empty-range branch recomputes no hash (root object replaced by a diverging edge)
